@@ -212,11 +212,13 @@ fn tiny_serial() {
     assert!(ms_of(v, false) == DAY_MS);
     assert!(ms_of(v, true) == 1462 * DAY_MS);
 }
-/// 1904 system: same instant as the 1900-system serial v + 1462 (for every f64 whose shifted value is not below 60, NaN included)
+/// 1904 system: same instant as the 1900-system serial v + 1462 (for every f64 whose shifted value is not below 60; +inf included,
+/// NaN has no instant at all: `as_datetime_nan_is_none`)
 fn sys1904_link() {
     let v: f64 = kani::any();
-    kani::assume(!(v + 1462.0 < 60.0));
+    kani::assume(v + 1462.0 >= 60.0);
     kani::cover!(v == 0.0);
+    kani::cover!(v == f64::INFINITY);
     assert!(ms_of(v, true) == ms_of(v + 1462.0, false));
 }
 /// 1900 system, any f64 in the supported span outside [60,61): the offset from 1899-12-30 is the duration ("serial times 24h") of the serial, shifted by one day below 60
@@ -264,25 +266,24 @@ fn exact_sym(e_lo: i32, e_hi: i32, is_1904: bool) {
 }
 
 // ------------------------------------------------------------------ (A4) totality and None paths (real chrono, nothing stubbed)
-fn total_datetime(above_min: bool) {
+/// any f64 (NaN, +-inf, huge, negative), both systems: returns, never panics
+fn total_datetime() {
     let v: f64 = kani::any();
     let is_1904: bool = kani::any();
-    if above_min {
-        // (v + 1462) * 86_400_000 > -2^63  <=>  v > -1.0675e11
-        kani::assume(!(v <= -1.0e11));
-    }
     kani::cover!(v.is_nan());
     kani::cover!(v == f64::INFINITY);
-    kani::cover!(v < 0.0);
+    kani::cover!(v == f64::NEG_INFINITY);
+    kani::cover!(v <= -1.0e300);
     let _ = ExcelDateTime::new(v, ExcelDateTimeType::DateTime, is_1904).as_datetime();
 }
 /// chrono's NaiveDate spans years -262143..=262142, i.e. fewer than 1.0e8 days either side of 1899-12-30
 fn beyond_calendar() {
     let v: f64 = kani::any();
     let is_1904: bool = kani::any();
-    kani::assume(v >= 1.0e8 || (v <= -1.01e8 && v > -1.0e11));
+    kani::assume(v >= 1.0e8 || v <= -1.01e8);
     kani::cover!(v == f64::INFINITY);
-    kani::cover!(v < 0.0);
+    kani::cover!(v == f64::NEG_INFINITY);
+    kani::cover!(v <= -1.0e300);
     assert!(ExcelDateTime::new(v, ExcelDateTimeType::DateTime, is_1904).as_datetime().is_none());
 }
 fn span_is_some() {
@@ -298,15 +299,14 @@ fn nan_is_none() {
     kani::cover!(true);
     assert!(ExcelDateTime::new(v, ExcelDateTimeType::DateTime, kani::any()).as_datetime().is_none());
 }
-fn total_duration(above_min: bool) {
+/// any f64: returns, never panics; every duration of fewer than 1.0e11 days (2^63 ms is 1.0675e11 days) is representable: Some
+fn total_duration() {
     let v: f64 = kani::any();
-    if above_min {
-        kani::assume(!(v <= -1.0e11));
-    }
     kani::cover!(v.is_nan());
-    kani::cover!(v < 0.0);
+    kani::cover!(v == f64::NEG_INFINITY);
+    kani::cover!(v <= -1.0e300);
     let r = ExcelDateTime::new(v, ExcelDateTimeType::TimeDelta, kani::any()).as_duration();
-    assert!(r.is_some() || !above_min);
+    assert!(r.is_some() || !(v > -1.0e11 && v < 1.0e11));
 }
 
 // ------------------------------------------------------------------ (A5) monotonicity of the observable on grids i/den
@@ -866,11 +866,7 @@ fn exact1904_em25_e21() {
 }
 #[kani::proof]
 fn as_datetime_total_any_f64() {
-    total_datetime(false);
-}
-#[kani::proof]
-fn as_datetime_none_or_some_above_min() {
-    total_datetime(true);
+    total_datetime();
 }
 #[kani::proof]
 fn as_datetime_beyond_calendar() {
@@ -886,11 +882,7 @@ fn as_datetime_nan_is_none() {
 }
 #[kani::proof]
 fn as_duration_total_any_f64() {
-    total_duration(false);
-}
-#[kani::proof]
-fn as_duration_some_above_min() {
-    total_duration(true);
+    total_duration();
 }
 #[kani::proof]
 #[kani::stub(chrono::TimeDelta::try_milliseconds, rec_try_milliseconds)]
